@@ -32,6 +32,7 @@ def run(prog, chk):
     C15.scope_pairing(prog, chk, "A5.scope")
     retry_terminates(prog, chk)
     retry_progress(prog, chk)
+    containment_every_target(prog, chk)
     C06.output_order(prog, chk)
     error_swallow(prog, chk)
     missing_bbox_default(prog, chk)
@@ -319,6 +320,29 @@ def retry_progress(prog, chk):
                     odd.append(pt.where(a, tt.get("line")))
             chk.ob(not odd, "A7.retry-progress", f"process_tags:{c.path.split('::')[-1]}:every-success", pt.where(bb, t.get("line")), "every element whose generate_events succeeded (outside <specs>) is noted as progress", f"progress is noted only under a further condition ({', '.join(odd)}): an element that resolved without satisfying it is not seen as progress, and elements waiting for it fail with a reference error")
     chk.floor("A7.retry-progress", n, 2, "progress setter / call site")
+
+
+def containment_every_target(prog, chk):
+    """surround= / inside= list element references: every pass of the loop over the list either adds that element's
+    box to the list that is combined, or leaves the function with an error - a target without a box is never skipped"""
+    b = prog.body("svgdx::element::SvgElement::handle_containment")
+    chk.touch(b)
+    pushes = [(bb, t) for (bb, t, c) in b.call_sites(R.path_endswith("Vec::<T, A>::push")) if "svgdx::position::BoundingBox" in c.inst]
+    n = 0
+    for (pb, pt) in pushes:
+        lp = R.loop_containing(b, pb)
+        if lp is None:
+            continue
+        n += 1
+        h, blocks = lp
+        # the Some edge of the loop's iterator: successors of the header region that stay in the loop
+        back = [x for x in blocks if h in b.succ[x]]
+        # can the header be reached again (a completed iteration) without passing the push?
+        starts = [y for y in b.succ[h] if y in blocks] or [h]
+        skip = [x for x in back if x in b.reach(starts, avoid={pb}) and x != pb]
+        # the iterator advance itself sits between header and body; a path header -> ... -> header that avoids the push
+        chk.ob(not skip, "A10.every-target", "handle_containment", b.where(pb, pt.get("line")), "every element listed in surround= / inside= contributes its box (or the element fails with MissingBoundingBox / a reference error)", f"handle_containment can finish a pass of its loop over the listed references without adding that element's box ({', '.join(b.where(x) for x in skip[:3])}): a listed element without a (or not yet with a) bounding box is skipped silently, so the region depends on document order instead of the element being deferred / rejected")
+    chk.floor("A10.every-target", n, 1, "push of a listed element's box in handle_containment")
 
 
 def error_swallow(prog, chk):
